@@ -80,6 +80,14 @@ CHECKS.update({
   "DESIGN.md 4 C18"),
 })
 
+CHECKS.update({
+ "C07": ("model_checking", "approvex/cisco+panos",
+  "explicit-state exploration: managed pair space x all subsets (bounded size) of an alphabet of unmanaged items; real planner as transition; the frame invariant (every unmanaged entry still present and textually unchanged; PAN-OS: XML outside the targeted vsys identical) is evaluated after every executed command on the reference models",
+  "Device states combine a managed ACL pair space with every subset of up to 2 (thorough 4) unmanaged items; the invariant is checked in every intermediate state, so a transient deletion is caught as well. Exhaustive inside the alphabets. NSX's prefix filter sits in the code that reads the manager and is exercised by the dialogue engines instead.",
+  "The alphabet of unmanaged items follows the statement's list; other kinds of foreign configuration are not covered.",
+  "DESIGN.md 4 C07"),
+})
+
 NOT_YET = "check not built yet in this round (design in DESIGN.md section 4); no technique switch intended"
 
 def main():
